@@ -110,3 +110,54 @@ pub fn sharing(rep: &mut Report, templates: &[&str], vals: &[CelValue]) {
         }
     }
 }
+
+/// A caller-defined dyn value whose equality is one-sided: it compares equal to the int it holds when *it* is asked
+/// (left operand); a plain value on the left knows nothing about it.
+#[derive(Debug)]
+pub struct OneSided(pub i64);
+
+impl std::fmt::Display for OneSided {
+    fn fmt(&self, f: &mut std::fmt::Formatter<'_>) -> std::fmt::Result {
+        write!(f, "OneSided({})", self.0)
+    }
+}
+
+impl rscel::CelValueDyn for OneSided {
+    fn as_type(&self) -> CelValue {
+        CelValue::from_type("one_sided")
+    }
+    fn access(&self, _key: &str) -> CelValue {
+        CelValue::from_null()
+    }
+    fn eq(&self, rhs: &CelValue) -> CelValue {
+        CelValue::from_bool(*rhs == CelValue::from_int(self.0))
+    }
+    fn is_truthy(&self) -> bool {
+        true
+    }
+    fn any_ref<'a>(&'a self) -> &'a dyn std::any::Any {
+        self
+    }
+}
+
+/// `a != b` is the negation of `a == b` with the operands in the written order — also when equality is one-sided.
+pub fn complement_with_one_sided(rep: &mut Report) {
+    let d = CelValue::from_dyn(Arc::new(OneSided(1)));
+    for v in scalars() {
+        for (an, bn) in [("d", "v"), ("v", "d")] {
+            for t in ["(A != B) == !(A == B)", "[A != B, !(A == B)]", "(A == B) != (A != B)", "A != B || A == B"] {
+                let src = t.replace('A', an).replace('B', bn);
+                let got = l1(&exec_src(&src, &[("d".to_string(), d.clone()), ("v".to_string(), v.clone())]));
+                rep.count(Some(&format!("one-sided|{}|{}", src, show_val(&v))));
+                rep.bump("dyn-wrapped operands:one-sided equality");
+                let ok = match t {
+                    "[A != B, !(A == B)]" => got == "l:2 b:1 b:1" || got == "l:2 b:0 b:0" || got == "E",
+                    _ => got == "b:1" || got == "E",
+                };
+                if !ok {
+                    rep.oracle_fail(&format!("{}  with d = a dyn value equal to 1 when asked, v = {}", src, show_val(&v)), &got, "!= is the negation of == on the same operands, in the same order", "== and != are complementary");
+                }
+            }
+        }
+    }
+}
